@@ -194,6 +194,142 @@ theorem blockB_cons {d : Nat} {s : Stmt} {ss : List Stmt} {t1 t2 : List Token} (
     rw [List.append_assoc]; exact h
   exact hB t1.getLast? rest true inputs (stmts ++ [s]) r n (inOrder_drop t1 ho) hb.right hf h' m hlen.2
 
+-- ---- `；` ------------------------------------------------------------------------------------------------------------------
+
+theorem lastTok_cons (p1 : Option Token) (t : Token) (ts : List Token) : lastTok p1 (t :: ts) = lastTok (some t) ts := by
+  have : t :: ts = [t] ++ ts := rfl
+  rw [this, lastTok_append]; rfl
+
+/-- `ParseStatement` on a `；` -/
+theorem statement_semi (p1 : Option Token) (fl : Bool) (semi : Token) (r : List Token)
+    (hs : semi.type = cTypeStmtSep) (ho : Y.InOrder (semi :: r)) :
+    Stable v Y .statement (S Y p1 (semi :: r) fl) (.ok (.empty 0) (S Y (some semi) r (Y.brk semi (Y.peek r)))) 2 := by
+  intro n' hn
+  obtain ⟨m, rfl⟩ : ∃ m, n' = m + 2 := ⟨n' - 2, by omega⟩
+  show pStatement v (layoutOps Y) (m + 1) _ _ = _
+  rw [pStatement_eq]
+  rw [bind_ok (unsetFlag_S p1 (semi :: r) fl),
+    bind_ok (tryConsume_hit m _ p1 semi r (by rw [hs]; decide) (by rw [hs]; decide) ho)]
+  simp only [hs, if_true]
+  rfl
+
+/-- flag after a `；` and the statements `t2`, when a statement line break follows the last token -/
+theorem exitFl_semi (semi : Token) (t2 rest : List Token) (hb : Brk Y (semi :: t2) rest) (fl : Bool) :
+    exitFl (Y.brk semi (Y.peek (t2 ++ rest))) t2 = exitFl fl (semi :: t2) := by
+  rw [exitFl_ne fl (by simp : semi :: t2 ≠ [])]
+  by_cases h : t2 = []
+  · subst h
+    have := hb (by simp)
+    rw [exitFl_nil]
+    exact this
+  · rw [exitFl_ne _ h]
+
+theorem blockA_empty {d : Nat} {semi : Token} {ss : List Stmt} {t2 : List Token} (hs : semi.type = cTypeStmtSep)
+    (hind : Y.ind semi = d) (hB : CBlockA v Y d ss t2) : CBlockA v Y d (.empty 0 :: ss) (semi :: t2) := by
+  intro p1 rest fl acc ho hb hf n' hn
+  obtain ⟨m, rfl⟩ : ∃ m, n' = m + 1 := ⟨n' - 1, by unfold fB at hn; omega⟩
+  have e0 : (semi :: t2) ++ rest = semi :: (t2 ++ rest) := rfl
+  rw [e0] at ho ⊢
+  have hbc : blockCond (layoutOps Y) d (S Y p1 (semi :: (t2 ++ rest)) fl) = true :=
+    blockCond_true d p1 _ fl (by show semi.type ≠ _; rw [hs]; decide) hind
+  have hb2 : Brk Y t2 rest := Brk.right (t1 := [semi]) hb
+  have hst := statement_semi (v := v) p1 fl semi _ hs ho m (by unfold fB at hn; simp only [List.length_cons] at hn; omega)
+  have hrest := hB (some semi) rest (Y.brk semi (Y.peek (t2 ++ rest))) (acc ++ [.empty 0]) (inOrder_tail ho) hb2 hf m
+    (by unfold fB at hn ⊢; simp only [List.length_cons] at hn; omega)
+  show pBlockLoop (layoutOps Y) _ d acc _ = _
+  unfold pBlockLoop
+  rw [bind_ok (getS_S _)]
+  simp only [hbc, if_true]
+  show (parse v (layoutOps Y) m .statement >>= _) _ = _
+  rw [bind_ok hst]
+  show parse v (layoutOps Y) m (.blockLoop d (acc ++ [.empty 0])) _ = _
+  rw [hrest, lastTok_cons, exitFl_semi semi t2 rest hb fl, List.append_assoc]
+  rfl
+
+theorem blockB_empty {d : Nat} {semi : Token} {ss : List Stmt} {t2 : List Token} (hs : semi.type = cTypeStmtSep)
+    (hind : Y.ind semi = d) (hB : CBlockB v Y d ss t2) : CBlockB v Y d (.empty 0 :: ss) (semi :: t2) := by
+  intro p1 rest fl inputs stmts r n ho hb hf h n' hn
+  obtain ⟨m, rfl⟩ : ∃ m, n' = m + 1 := ⟨n' - 1, by unfold fB at hn; omega⟩
+  have e0 : (semi :: t2) ++ rest = semi :: (t2 ++ rest) := rfl
+  rw [e0] at ho ⊢
+  have hst := statement_semi (v := v) p1 false semi _ hs ho m (by unfold fB at hn; simp only [List.length_cons] at hn; omega)
+  show pExecLoop v (layoutOps Y) m _ d .stmt inputs stmts [] _ = _
+  unfold pExecLoop
+  rw [bind_ok (getS_S _)]
+  have hbc : blockCond (layoutOps Y) d (S Y p1 (semi :: (t2 ++ rest)) fl) = true :=
+    blockCond_true d p1 _ fl (by show semi.type ≠ _; rw [hs]; decide) hind
+  simp only [hbc, if_true]
+  rw [bind_ok (unsetFlag_S p1 _ fl),
+    bind_ok (tryConsume_miss m _ p1 _ false (Or.inr (by show semi.type ∉ _; rw [hs]; decide))
+      (by show semi.type ≠ _; rw [hs]; decide))]
+  show (parse v (layoutOps Y) m .statement >>= _) _ = _
+  rw [bind_ok hst]
+  have hb2 : Brk Y t2 rest := Brk.right (t1 := [semi]) hb
+  rw [lastTok_cons, ← exitFl_semi semi t2 rest hb fl] at h
+  have h' : Stable v Y (.execLoop d .stmt inputs ((stmts ++ [.empty 0]) ++ ss) [])
+      (S Y (lastTok (some semi) t2) rest (exitFl (Y.brk semi (Y.peek (t2 ++ rest))) t2)) r n := by
+    rw [List.append_assoc]; exact h
+  exact hB (some semi) rest _ inputs (stmts ++ [.empty 0]) r n (inOrder_tail ho) hb2 hf h' m
+    (by unfold fB at hn ⊢; simp only [List.length_cons] at hn; omega)
+
+/-- what follows a simple statement when the next statement starts with `；` -/
+theorem afterS_semi {t1 t2 rest : List Token} (h2 : t2 ≠ []) (hsemi : (Y.peek t2).type = cTypeStmtSep) :
+    AfterS Y t1.getLast? (t2 ++ rest) := by
+  rw [← peek_append h2 rest] at hsemi
+  exact ⟨by rw [hsemi]; decide, Or.inr hsemi⟩
+
+theorem blockA_consSemi {d : Nat} {s : Stmt} {ss : List Stmt} {t1 t2 : List Token} (hs : CSimple v Y s t1) (F1 : StmtFacts Y t1)
+    (hind : Y.ind (Y.peek t1) = d) (hB : CBlockA v Y d ss t2) (h2 : t2 ≠ []) (hsemi : (Y.peek t2).type = cTypeStmtSep) :
+    CBlockA v Y d (s :: ss) (t1 ++ t2) := by
+  intro p1 rest fl acc ho hb hf n' hn
+  obtain ⟨m, rfl⟩ : ∃ m, n' = m + 1 := ⟨n' - 1, by unfold fB at hn; omega⟩
+  have e0 : (t1 ++ t2) ++ rest = t1 ++ (t2 ++ rest) := List.append_assoc ..
+  rw [e0] at ho ⊢
+  show pBlockLoop (layoutOps Y) _ d acc _ = _
+  unfold pBlockLoop
+  rw [bind_ok (getS_S _)]
+  have hh := stmtHeads_spec _ F1.head
+  have hbc : blockCond (layoutOps Y) d (S Y p1 (t1 ++ (t2 ++ rest)) fl) = true :=
+    blockCond_true d p1 _ fl (by rw [peek_append F1.ne]; exact hh.1) (by rw [peek_append F1.ne]; exact hind)
+  simp only [hbc, if_true]
+  have hlen : fS t1 ≤ m ∧ fB t2 ≤ m := by
+    have := List.length_pos_iff.mpr F1.ne
+    unfold fB at hn; unfold fS fB; simp only [List.length_append] at hn; omega
+  show (parse v (layoutOps Y) m .statement >>= _) _ = _
+  rw [bind_ok (hs p1 (t2 ++ rest) fl ho (afterS_semi h2 hsemi) m hlen.1)]
+  have := hB t1.getLast? rest (Y.jf t1.getLast? (Y.peek (t2 ++ rest))) (acc ++ [s]) (inOrder_drop t1 ho) hb.right hf m hlen.2
+  show parse v (layoutOps Y) m (.blockLoop d (acc ++ [s])) _ = _
+  rw [this, lastTok_append, lastTok_ne p1 F1.ne, exitFl_ne _ h2, exitFl_ne fl (by simp [h2] : t1 ++ t2 ≠ [])]
+  simp
+
+theorem blockB_consSemi {d : Nat} {s : Stmt} {ss : List Stmt} {t1 t2 : List Token} (hs : CSimple v Y s t1) (F1 : StmtFacts Y t1)
+    (hind : Y.ind (Y.peek t1) = d) (hB : CBlockB v Y d ss t2) (h2 : t2 ≠ []) (hsemi : (Y.peek t2).type = cTypeStmtSep) :
+    CBlockB v Y d (s :: ss) (t1 ++ t2) := by
+  intro p1 rest fl inputs stmts r n ho hb hf h n' hn
+  obtain ⟨m, rfl⟩ : ∃ m, n' = m + 1 := ⟨n' - 1, by unfold fB at hn; omega⟩
+  have e0 : (t1 ++ t2) ++ rest = t1 ++ (t2 ++ rest) := List.append_assoc ..
+  rw [e0] at ho ⊢
+  show pExecLoop v (layoutOps Y) m _ d .stmt inputs stmts [] _ = _
+  unfold pExecLoop
+  rw [bind_ok (getS_S _)]
+  have hh := stmtHeads_spec _ F1.head
+  have hpk : Y.peek (t1 ++ (t2 ++ rest)) = Y.peek t1 := peek_append F1.ne _
+  have hbc : blockCond (layoutOps Y) d (S Y p1 (t1 ++ (t2 ++ rest)) fl) = true :=
+    blockCond_true d p1 _ fl (by rw [hpk]; exact hh.1) (by rw [hpk]; exact hind)
+  simp only [hbc, if_true]
+  rw [bind_ok (unsetFlag_S p1 _ fl),
+    bind_ok (tryConsume_miss m _ p1 _ false (Or.inr (by rw [hpk]; simpa using hh.2.2.2.2.1)) (by rw [hpk]; exact hh.2.1))]
+  have hlen : fS t1 ≤ m ∧ n + fB t2 ≤ m := by
+    have := List.length_pos_iff.mpr F1.ne
+    unfold fB at hn; unfold fS fB; simp only [List.length_append] at hn; omega
+  show (parse v (layoutOps Y) m .statement >>= _) _ = _
+  rw [bind_ok (hs p1 (t2 ++ rest) false ho (afterS_semi h2 hsemi) m hlen.1)]
+  rw [lastTok_append, lastTok_ne p1 F1.ne, exitFl_ne fl (by simp [h2] : t1 ++ t2 ≠ [])] at h
+  have h' : Stable v Y (.execLoop d .stmt inputs ((stmts ++ [s]) ++ ss) [])
+      (S Y (lastTok t1.getLast? t2) rest (exitFl (Y.jf t1.getLast? (Y.peek (t2 ++ rest))) t2)) r n := by
+    rw [List.append_assoc, exitFl_ne _ h2]; exact h
+  exact hB t1.getLast? rest _ inputs (stmts ++ [s]) r n (inOrder_drop t1 ho) hb.right hf h' m hlen.2
+
 -- ---- `：` and the block after it -----------------------------------------------------------------------------------------
 
 /-- the header expression of a compound statement, up to its `：` -/
@@ -405,10 +541,11 @@ theorem stmt_iter2 {d : Nat} {kw a p a2 it colon : Token} {e : Expr} {te : List 
   have hg1 : Y.Glued (a :: p :: a2 :: it :: (te ++ [colon])) := glued_tail hg
   have hpc : p.type ≠ cTypeCommaSep := by rw [hp]; decide
   have hitc : it.type ≠ cTypeCommaSep := by rw [hit]; decide
-  have hs : Stop Y F1 [a] (p :: a2 :: it :: (te ++ colon :: (tb ++ rest))) :=
-    ⟨hpc, Or.inr (by show p.type ∉ F1; rw [hp]; decide)⟩
+  have hFO : FO (Expr.id (Y.idOf a)) = [] := rfl
+  have hs : Stop Y (B1 true ++ FO (Expr.id (Y.idOf a))) [a] (p :: a2 :: it :: (te ++ colon :: (tb ++ rest))) :=
+    ⟨hpc, Or.inr (by show p.type ∉ _; rw [hFO, hp]; decide)⟩
   have hm0 : 14 ≤ m := by unfold fS at hn; simp only [List.length_cons, List.length_append] at hn; omega
-  have h1 := expr_roundtrip (v := v) (linE_id1 (Y := Y) a hat) trivial (some kw) _ ho1 hs (m + 34) (by show 16 * 1 + 16 ≤ _; omega)
+  have h1 := expr_roundtrip_open (v := v) (linE_id1 (Y := Y) a hat) trivial (some kw) _ ho1 hs (m + 34) (by show 16 * 1 + 16 ≤ _; omega)
   show (parse v (layoutOps Y) (m + 34) (.expr true) >>= _) (S Y (some kw) ([a] ++ _) false) = _
   rw [bind_ok h1]
   unfold Send
